@@ -87,7 +87,14 @@ def run_shard(tier, seed, idx, n, res, tmp):
                     m2 = copy.deepcopy(m)
                     try:
                         edit = apply(m2)
-                        files = gr.render(m2, None)
+                        # "wherever it sits in the inputs": half of the structural
+                        # injections are rendered under a random layout (definition
+                        # and file order, file splits, comments, continuation lines)
+                        lay = None
+                        if edit is None and rnd.random() < 0.5:
+                            lay = gr.Layout(rnd.randrange(1 << 30), inline=False)
+                            res.count('injections_under_random_layout')
+                        files = gr.render(m2, lay)
                         if edit is not None:
                             files = edit(files, rnd)
                             if files is None:
